@@ -80,6 +80,8 @@ func c06Gen(t *rapid.T) c06Case {
 			return c06Op{Kind: "wc", Request: rapid.SampledFrom([]string{"UNPAUSE", "unpause", "UNPAUSE stateA", "UNPAUSE B2", "UNPAUSE"}).Draw(t, "unpause")}
 		case k < 18:
 			return c06Op{Kind: "wc", Request: rapid.SampledFrom([]string{"UNPAUSEx", "UNPAUSE ", "unpause ", "RESUME", "", "PAUS", "UNPAUSElabel", "STAR"}).Draw(t, "bad")}
+		case k < 19 && rapid.IntRange(0, 2).Draw(t, "rmrunq") == 0:
+			return c06Op{Kind: "rmrun"}
 		case k < 19:
 			return c06Op{Kind: "proj", Chan: rapid.IntRange(0, c.Nchan-1).Draw(t, "pchan"), Load: rapid.Bool().Draw(t, "pload")}
 		default:
@@ -108,6 +110,20 @@ func c06Gen(t *rapid.T) c06Case {
 			}
 			c.Ops = append(c.Ops, op)
 		}
+		return c
+	}
+	if rapid.IntRange(0, 5).Draw(t, "skeleton2") == 0 {
+		// the operator deletes an earlier run of the day between two sessions: the directory numbers have a hole
+		start := func(label string) c06Op {
+			m := rapid.IntRange(1, 3).Draw(t, label)
+			return c06Op{Kind: "wc", Request: "START", LJH22: m&1 != 0, LJH3: m&2 != 0}
+		}
+		c.Ops = append(c.Ops, start("typesA"), c06Op{Kind: "publish"}, c06Op{Kind: "wc", Request: "STOP"},
+			start("typesB"), c06Op{Kind: "publish"}, c06Op{Kind: "wc", Request: "STOP"})
+		if rapid.Bool().Draw(t, "third") {
+			c.Ops = append(c.Ops, start("typesC"), c06Op{Kind: "publish"}, c06Op{Kind: "wc", Request: "STOP"})
+		}
+		c.Ops = append(c.Ops, c06Op{Kind: "rmrun", Chan: rapid.IntRange(0, 1).Draw(t, "which")}, start("typesD"), c06Op{Kind: "publish"}, c06Op{Kind: "publish"})
 		return c
 	}
 	n := rapid.IntRange(2, 16).Draw(t, "nops")
@@ -229,6 +245,7 @@ func c06Run1(c c06Case) (v vVerdict) {
 	pos := 0
 	blockLen := 3 * 16 // three records of the longest length in use
 	starts, pauses, startTypes := 0, 0, map[string]bool{}
+	removedRuns := 0
 	publishesBetween := false
 	pauseBeforeLastStart := false
 
@@ -315,6 +332,33 @@ func c06Run1(c c06Case) (v vVerdict) {
 
 	for i, op := range c.Ops {
 		switch op.Kind {
+		case "rmrun":
+			// an earlier, finished run of the day is deleted by hand (never the latest one of its base directory)
+			if c06Snapshot(ds).Active {
+				continue
+			}
+			var cands []*c06Run
+			for ri, r := range runs {
+				if !r.stopped || !usedDirs[r.dir] {
+					continue
+				}
+				later := false
+				for _, r2 := range runs[ri+1:] {
+					later = later || (filepath.Dir(r2.dir) == filepath.Dir(r.dir) && usedDirs[r2.dir])
+				}
+				if later {
+					cands = append(cands, r)
+				}
+			}
+			if len(cands) == 0 {
+				continue
+			}
+			r := cands[op.Chan%len(cands)]
+			if err := os.RemoveAll(r.dir); err != nil {
+				return vVerdict{Inconclusive: "cannot remove a run directory: " + err.Error()}
+			}
+			delete(usedDirs, r.dir) // the name is free again
+			removedRuns++
 		case "lengths":
 			if op.Nsamp < 5 || op.Nsamp > 16 || op.Npre < 3 || op.Npre > op.Nsamp-2 {
 				continue
@@ -506,6 +550,9 @@ func c06Run1(c c06Case) (v vVerdict) {
 	v.NonTrivial = starts >= 2 && len(startTypes) >= 2 && pauseBeforeLastStart && publishesBetween
 	if starts >= 2 {
 		v.Classes = append(v.Classes, "two-starts")
+	}
+	if removedRuns > 0 {
+		v.Classes = append(v.Classes, "earlier-run-directory-deleted")
 	}
 	if pauseBeforeLastStart {
 		v.Classes = append(v.Classes, "pause-before-last-start")
